@@ -104,7 +104,7 @@ def one(R, rnd, workdir, idx):
     ref = Ref(si)
     nslist = [n for n in sorted(ref.local) if n >= 0 and n != 6]
     bases = ["Alpha", "Beta gamma", "Ärger", "Écôle x", "日本語", "Foo (bar)", "A/b", "X-y.z", "Q~r", "Under score", "İz", "1st", "C++",
-             "Tab le", "Ab:cd",
+             "Tab le", "Ab:cd", "Star Trek: Voyager", "2001: A Space Odyssey", "Re: mail", "Star Trek:Voyager", "A : b",
              # titles with compatibility characters next to their plain look-alikes (titles are NFC, not NFKC)
              "Km\u00b2", "Km2", "H\u2082O", "H2O", "X \u00bd", "X 1\u20442", "Of\ufb01ce", "Office", "No \u2160", "No I", "A\uff21"]
     # ---- model --------------------------------------------------------------------------------
@@ -139,7 +139,8 @@ def one(R, rnd, workdir, idx):
             redirects[src] = rnd.choice(sorted(pages))
     images = {}
     filens = ref.local[6]
-    names = ["Pic.png", "Photo one.jpg", "Diagram.svg", "Ünï.png", "A-b.c_d~e.png", "Map 2.PNG", "x.gif"]
+    names = ["Pic.png", "Photo one.jpg", "Diagram.svg", "Ünï.png", "A-b.c_d~e.png", "Map 2.PNG", "x.gif", "A+B.svg", "C++ logo.png",
+             "50% off.png", "Tom & Jerry.jpg", "O'Neil.png", "Q=1.png"]
     for nme in rnd.sample(names, rnd.randint(0, 4)):
         images[filens + ":" + nme] = os.urandom(rnd.randint(1, 64))
     if rnd.random() < 0.35:
@@ -191,6 +192,13 @@ def one(R, rnd, workdir, idx):
                 p["revisions"].append({"revid": r, "*": x} if r is not None else {"*": x})
             fsout.write_pages(data)
             history.append(["pages", [[t, r] for t, r, _ in batch]])
+        for src, dst in sorted(redirects.items()):
+            if rnd.random() < 0.5:
+                # the fetcher stores the redirecting page itself as well
+                revid += rnd.randint(1, 50)
+                fsout.write_pages({"pages": {"900%d" % revid: {"title": src, "ns": 0, "revisions": [
+                    {"revid": revid, "*": "#REDIRECT [[%s]]" % dst}]}}})
+                history.append(["redirect-page", src, revid])
         fsout.write_redirects(redirects)
         for t, data in images.items():
             with open(fsout.get_imagepath(t), "wb") as f:
